@@ -79,6 +79,7 @@ def body(ck):
     ck.assumptions = ["jr.split is modelled by key paths; the stubs draw one jr.randint per key (tabulated for every path of the split tree)",
                       "float64 arithmetic exact on the dyadic tables"]
     ck.build_coq(); ck.compile_props()
+    ck.kernel_link()   # AbstractEnvLike.step / reset regenerated from the source = Env.gym_step / gym_reset (coq/link/C01_link.v)
     quick = ck.tier == "quick"
     n = 100 if quick else 800
     H = 16 if quick else 40
